@@ -15,6 +15,7 @@ func init() {
 		Level: "model_checking",
 		Rule: "(a) breadth-first search over all sequences (depth 4, thorough 5) of refinement-builder calls (NotNull, Null, numeric lower/upper bounds over {-1,0,1,2,+-Inf,unknown} x inclusive/exclusive, NumberRangeInclusive, length bounds -1..3, CollectionLength, StringPrefix/StringPrefixFull over 7 prefixes) on 24 base values (unknown of every kind, already refined, known, null, DynamicVal, marked), " +
 			"with an analytic interval/prefix/length model advanced in lock-step; after every accepted call the value, its reported range and membership of 11-13 probe values are compared with the model; a history ends at the first rejected call; the same histories again with a value built and kept after every call (earlier values keep printing the same); " +
+			"(a'') synthetic ranges: Value.Range() of known sets / lists / maps whose members hold unknowns must contain the length of every listed concretisation (among them those that make two set members equal), Includes / Equals must not answer False for one, and a length constraint every concretisation satisfies is accepted; " +
 			"(a') every history of one or two calls on every base through Value.Refine()...NewValue() and through Value.RefineWith: the same rejection or the same value, so a contradiction with a known value is rejected whichever route states it; " +
 			"(b) every (prefix, continuation) pair over a 16-symbol alphabet of combining marks, jamo, emoji modifiers, joiners, regional indicators, CR/LF and ASCII delimiters: SafeKnownPrefix(p) and Refine().StringPrefix(p) must be NFC byte prefixes of NFC(p+s); " +
 			"states = builder record dump + model; non-trivial = every transition / every pair with non-empty prefix",
@@ -781,7 +782,80 @@ func runC05(c *Ctx) {
 		}
 	}
 	c05Routes(c, all)
+	c05SyntheticRanges(c)
 	c05Prefixes(c)
+}
+
+// c05SyntheticRanges: Value.Range() of a known collection with unknown parts is a refinement like
+// any other: it must admit every value the collection can still become.  Each case is a known set /
+// list / map whose members hold unknowns, with an explicit list of concretisations (the unknowns
+// replaced by members of a small alphabet, among them the ones that make two set members equal);
+// the reported length bounds must contain the length of every concretisation, Includes must not
+// answer False for one, and a length refinement that every concretisation satisfies must be accepted.
+func c05SyntheticRanges(c *Ctx) {
+	s, n := cty.StringVal, cty.NumberIntVal
+	us, un := cty.UnknownVal(cty.String), cty.UnknownVal(cty.Number)
+	obj := func(id, name cty.Value) cty.Value { return cty.ObjectVal(map[string]cty.Value{"id": id, "name": name}) }
+	tup := func(a, b cty.Value) cty.Value { return cty.TupleVal([]cty.Value{a, b}) }
+	type rcase struct {
+		v     cty.Value
+		concs []cty.Value
+	}
+	cases := []rcase{
+		{cty.SetVal([]cty.Value{obj(us, s("a")), obj(s("x"), s("a"))}), []cty.Value{cty.SetVal([]cty.Value{obj(s("x"), s("a"))}), cty.SetVal([]cty.Value{obj(s("y"), s("a")), obj(s("x"), s("a"))})}},
+		{cty.SetVal([]cty.Value{tup(s("a"), n(1)), tup(s("a"), un)}), []cty.Value{cty.SetVal([]cty.Value{tup(s("a"), n(1))}), cty.SetVal([]cty.Value{tup(s("a"), n(1)), tup(s("a"), n(2))})}},
+		{cty.SetVal([]cty.Value{s("a"), us}), []cty.Value{cty.SetVal([]cty.Value{s("a")}), cty.SetVal([]cty.Value{s("a"), s("b")})}},
+		{cty.SetVal([]cty.Value{s("a"), s("b"), us.RefineNotNull()}), []cty.Value{cty.SetVal([]cty.Value{s("a"), s("b")}), cty.SetVal([]cty.Value{s("a"), s("b"), s("c")})}},
+		{cty.SetVal([]cty.Value{cty.ListVal([]cty.Value{us}), cty.ListVal([]cty.Value{s("q")})}), []cty.Value{cty.SetVal([]cty.Value{cty.ListVal([]cty.Value{s("q")})}), cty.SetVal([]cty.Value{cty.ListVal([]cty.Value{s("p")}), cty.ListVal([]cty.Value{s("q")})})}},
+		{cty.SetVal([]cty.Value{obj(us, s("a")), obj(us, s("b")), obj(s("x"), s("a"))}), []cty.Value{cty.SetVal([]cty.Value{obj(s("x"), s("a")), obj(s("x"), s("b"))}), cty.SetVal([]cty.Value{obj(s("y"), s("a")), obj(s("z"), s("b")), obj(s("x"), s("a"))})}},
+		{cty.ListVal([]cty.Value{s("a"), us}), []cty.Value{cty.ListVal([]cty.Value{s("a"), s("a")}), cty.ListVal([]cty.Value{s("a"), s("b")})}},
+		{cty.MapVal(map[string]cty.Value{"k": un, "j": n(1)}), []cty.Value{cty.MapVal(map[string]cty.Value{"k": n(1), "j": n(1)})}},
+	}
+	c.Unit(func(u *U) {
+		for _, rc := range cases {
+			u.Eval(1)
+			u.DistinctN(1)
+			shape := "synthetic range of " + shapeOf(rc.v)
+			func() {
+				defer func() {
+					if r := recover(); r != nil {
+						u.Violation("refine.range-panics", shape, fmt.Sprintf("Range() of %s panicked: %v", goStr(rc.v), r))
+					}
+				}()
+				r := rc.v.Range()
+				lo, hi := r.LengthLowerBound(), r.LengthUpperBound()
+				minLen, maxLen := -1, -1
+				for _, cv := range rc.concs {
+					l := cv.LengthInt()
+					if minLen < 0 || l < minLen {
+						minLen = l
+					}
+					if l > maxLen {
+						maxLen = l
+					}
+					if l < lo || l > hi {
+						u.Violation("refine.range-excludes-concretisation", shape, fmt.Sprintf("%s reports length bounds [%d,%d], but it can still become %s of length %d", goStr(rc.v), lo, hi, goStr(cv), l))
+					}
+					if inc := r.Includes(cv); inc.IsKnown() && inc.False() {
+						u.Violation("refine.range-excludes-concretisation", shape, fmt.Sprintf("Range() of %s answers Includes(%s) = False, but it can still become that value", goStr(rc.v), goStr(cv)))
+					}
+					if eq := rc.v.Equals(cv); eq.IsKnown() && eq.False() {
+						u.Violation("refine.range-excludes-concretisation", shape, fmt.Sprintf("%s Equals %s = False, but it can still become that value", goStr(rc.v), goStr(cv)))
+					}
+				}
+				// a length constraint every concretisation satisfies is consistent with the value
+				func() {
+					defer func() {
+						if rr := recover(); rr != nil {
+							u.Violation("refine.consistent-constraint-rejected", shape, fmt.Sprintf("%s.Refine().CollectionLengthLowerBound(%d).CollectionLengthUpperBound(%d) was rejected (%v) although the value can still have every length in that range it is given here", goStr(rc.v), minLen, maxLen, rr))
+						}
+					}()
+					rc.v.Refine().CollectionLengthLowerBound(minLen).CollectionLengthUpperBound(maxLen).NewValue()
+				}()
+				u.Class("synthetic-range-checked")
+			}()
+		}
+	})
 }
 
 // c05Routes: every way of stating constraints is the same function of (value, constraints).  Each
